@@ -5,6 +5,8 @@
 //! stdin, one scenario per line:
 //!   <idx> <kind> <named> <holder> <sup> | <script> | <op> ; <op> ; ...
 //!     kind   0 spawn  1 spawn_linked  2 spawn_instant  3 spawn_linked_instant
+//!            4..7 the same four through the thread-local API (ThreadLocalActor::spawn*, spawn_local,
+//!            ActorCell::spawn_local_linked) on a ThreadLocalActorSpawner with its own OS thread
 //!     named  0|1      holder 0|1 (another running actor already owns the name)
 //!     sup    none | run | draining | stopping | dead      (state of the supervisor P before the spawn)
 //!     script tokens (pre_start of a): g (await a gate) | j1 j2 (pg::join) | m1 m2 (pg::monitor)
@@ -12,6 +14,11 @@
 //!            then exactly one of: ok | err | panic
 //!     ops    spawn | open | kill | abort | drain | cast | call | wait | supkill | supstop
 //!            | extjoin1 | extjoin2 | extmon1 | extlink | reuse | settle
+//!            | block (occupy the spawner thread inside another thread-local actor's pre_start) | release
+//! Thread-local scenarios: the spawner thread is a real thread with an unpaused runtime, so a settle is
+//! a sequence of main-runtime barriers and FIFO fences through the spawner (a thread-local Fence actor
+//! whose pre_start yields repeatedly); every wait is bounded by a watchdog whose expiry ends the
+//! process with exit code 2 (infrastructure failure, never a verdict).
 //! stdout, one Coq-syntax term per scenario:  ([obs; ...], result, existed)
 //!   obs = (mkObs status waiters_released name_mine pid_mine groups mons in_sup_children has_sup
 //!                children events ran calls_open send_accepted holder orphans)
@@ -19,6 +26,7 @@ use std::sync::atomic::{AtomicUsize, Ordering};
 use std::sync::{Arc, Mutex};
 use std::time::Duration;
 
+use ractor::thread_local::{ThreadLocalActor, ThreadLocalActorSpawner};
 use ractor::{Actor, ActorCell, ActorId, ActorProcessingErr, ActorRef, RpcReplyPort, SupervisionEvent};
 use rv_harness::*;
 use tokio::sync::watch;
@@ -118,6 +126,7 @@ fn group(idx: &str, g: u8) -> String {
     format!("c08-g{g}-{idx}")
 }
 
+#[derive(Default)]
 struct A;
 impl Actor for A {
     type Msg = AMsg;
@@ -191,6 +200,82 @@ async fn settle() {
     tokio::time::sleep(Duration::from_nanos(1)).await;
 }
 
+// ---- thread-local machinery ----
+/// FIFO fence through the spawner's request queue and local task queue
+#[derive(Default)]
+struct Fence;
+impl Actor for Fence {
+    type Msg = ();
+    type State = ();
+    type Arguments = ();
+    async fn pre_start(&self, _: ActorRef<()>, _: ()) -> Result<(), ActorProcessingErr> {
+        for _ in 0..8 {
+            tokio::task::yield_now().await;
+        }
+        Ok(())
+    }
+}
+
+/// Occupies the spawner thread (blocking on purpose) until released
+#[derive(Default)]
+struct Blocker;
+impl Actor for Blocker {
+    type Msg = ();
+    type State = ();
+    type Arguments = (std::sync::mpsc::Sender<()>, std::sync::mpsc::Receiver<()>);
+    async fn pre_start(&self, _: ActorRef<()>, (entered, release): Self::Arguments) -> Result<(), ActorProcessingErr> {
+        let _ = entered.send(());
+        let _ = release.recv();
+        Ok(())
+    }
+}
+
+static DEADLINE_MS: std::sync::atomic::AtomicU64 = std::sync::atomic::AtomicU64::new(u64::MAX);
+fn now_ms() -> u64 {
+    static START: std::sync::OnceLock<std::time::Instant> = std::sync::OnceLock::new();
+    START.get_or_init(std::time::Instant::now).elapsed().as_millis() as u64
+}
+fn arm_watchdog(ms: u64) {
+    DEADLINE_MS.store(now_ms() + ms, Ordering::SeqCst);
+}
+fn start_watchdog() {
+    now_ms();
+    std::thread::spawn(|| loop {
+        std::thread::sleep(Duration::from_millis(50));
+        if now_ms() > DEADLINE_MS.load(Ordering::SeqCst) {
+            eprintln!("eng_spawn: bounded wait expired (infrastructure failure, no verdict)");
+            std::process::exit(2);
+        }
+    });
+}
+
+async fn fence(spawner: &ThreadLocalActorSpawner) {
+    match <Fence as ThreadLocalActor>::spawn(None, (), spawner.clone()).await {
+        Ok((r, h)) => {
+            r.stop(None);
+            let _ = h.await;
+        }
+        Err(e) => {
+            eprintln!("eng_spawn: fence could not be spawned: {e:?}");
+            std::process::exit(2);
+        }
+    }
+}
+
+/// quiescence of main runtime + spawner thread: alternate main barriers and spawner fences
+async fn settle_all(w: &World) {
+    match &w.spawner {
+        Some(sp) if w.release.is_none() => {
+            for _ in 0..3 {
+                settle().await;
+                fence(sp).await;
+            }
+            settle().await;
+        }
+        _ => settle().await,
+    }
+}
+
 struct World {
     sh: Arc<Shared>,
     name: Option<String>,
@@ -205,9 +290,22 @@ struct World {
     res: Arc<Mutex<Option<bool>>>,
     starter: Option<AbortHandle>,
     existed: bool,
+    spawner: Option<ThreadLocalActorSpawner>,
+    release: Option<std::sync::mpsc::Sender<()>>, // Some = the spawner thread is blocked
+    blocker: Option<ActorCell>,
 }
 
 fn observe(w: &mut World) -> String {
+    // a thread-local spawn whose request is still queued has a cell the driver never received: the
+    // registry is the only public way to it
+    if w.sh.cell.lock().unwrap().is_none() {
+        if let Some(c) = w.name.as_ref().and_then(|n| ractor::registry::where_is(n.clone())) {
+            let other = |o: &Option<ActorCell>| o.as_ref().is_some_and(|x| x.get_id() == c.get_id());
+            if !other(&w.holder) && !other(&w.reuser) {
+                *w.sh.cell.lock().unwrap() = Some(c);
+            }
+        }
+    }
     let cell = w.sh.cell.lock().unwrap().clone();
     if cell.is_some() {
         w.existed = true;
@@ -360,7 +458,11 @@ async fn run_scenario(line: &str) -> String {
         res: Arc::new(Mutex::new(None)),
         starter: None,
         existed: false,
+        spawner: if kind.parse::<u8>().unwrap_or(0) >= 4 { Some(ThreadLocalActorSpawner::new()) } else { None },
+        release: None,
+        blocker: None,
     };
+    arm_watchdog(60_000);
     let mut obs: Vec<String> = Vec::new();
     let mut next_gate = 0;
     for op in parts[2].split(';') {
@@ -374,6 +476,42 @@ async fn run_scenario(line: &str) -> String {
                 let supc = w.p.as_ref().map(|(c, _)| c.clone());
                 let res = w.res.clone();
                 match kind {
+                    "4" | "5" => {
+                        let sh2 = sh.clone();
+                        let nm = name.clone();
+                        let linked = kind == "5";
+                        let sp = w.spawner.clone().expect("spawner");
+                        let h = tokio::spawn(async move {
+                            let r = if linked {
+                                supc.expect("sup").spawn_local_linked::<A>(nm, sh2, sp).await
+                            } else if nm.is_none() {
+                                ractor::spawn_local::<A>(sh2, sp).await
+                            } else {
+                                <A as ThreadLocalActor>::spawn(nm, sh2, sp).await
+                            };
+                            *res.lock().unwrap() = Some(r.is_ok());
+                        });
+                        w.starter = Some(h.abort_handle());
+                    }
+                    "6" | "7" => {
+                        let sp = w.spawner.clone().expect("spawner");
+                        let r = if kind == "7" {
+                            <A as ThreadLocalActor>::spawn_linked_instant(name.clone(), sh.clone(), supc.expect("sup"), sp)
+                        } else {
+                            <A as ThreadLocalActor>::spawn_instant(name.clone(), sh.clone(), sp)
+                        };
+                        match r {
+                            Ok((aref, outer)) => {
+                                *sh.cell.lock().unwrap() = Some(aref.get_cell());
+                                w.starter = Some(outer.abort_handle());
+                                tokio::spawn(async move {
+                                    let ok = matches!(outer.await, Ok(Ok(_)));
+                                    *res.lock().unwrap() = Some(ok);
+                                });
+                            }
+                            Err(_) => *res.lock().unwrap() = Some(false),
+                        }
+                    }
                     "0" | "1" => {
                         let sh2 = sh.clone();
                         let nm = name.clone();
@@ -489,8 +627,29 @@ async fn run_scenario(line: &str) -> String {
                     }
                 }
             }
+            "block" => {
+                let sp = w.spawner.clone().expect("spawner");
+                let (etx, erx) = std::sync::mpsc::channel();
+                let (rtx, rrx) = std::sync::mpsc::channel();
+                let (b, _) = <Blocker as ThreadLocalActor>::spawn_instant(None, (etx, rrx), sp).expect("blocker");
+                w.blocker = Some(b.get_cell());
+                // bounded by the watchdog: the blocker must reach its pre_start
+                loop {
+                    settle().await;
+                    if erx.try_recv().is_ok() {
+                        break;
+                    }
+                    std::thread::sleep(Duration::from_millis(1));
+                }
+                w.release = Some(rtx);
+            }
+            "release" => {
+                if let Some(tx) = w.release.take() {
+                    let _ = tx.send(());
+                }
+            }
             "settle" => {
-                settle().await;
+                settle_all(&w).await;
                 obs.push(observe(&mut w));
             }
             other => panic!("unknown op {other:?}"),
@@ -503,6 +662,9 @@ async fn run_scenario(line: &str) -> String {
     };
     let out = format!("({}, {}, {})", coq_list(&obs), res, coq_bool(w.existed));
     // leave nothing behind for the next scenario
+    if let Some(tx) = w.release.take() {
+        let _ = tx.send(());
+    }
     for g in &sh.gates {
         g.open();
     }
@@ -517,15 +679,18 @@ async fn run_scenario(line: &str) -> String {
         hs.ps_gate.open();
         hs.h_gate.open();
     }
+    all.extend(w.blocker.iter().cloned());
     for c in all {
         c.kill();
     }
-    settle().await;
+    settle_all(&w).await;
+    arm_watchdog(u64::MAX / 4);
     out
 }
 
 fn main() {
     std::panic::set_hook(Box::new(|_| {}));
+    start_watchdog();
     for line in stdin_lines() {
         let rt = tokio::runtime::Builder::new_current_thread()
             .enable_time()
